@@ -306,6 +306,16 @@ theorem removeTree_spec (o : Oracle) (t : Node (List Rule3)) (hwf : WF t)
       refine ⟨sp.wf, ?_, sp.other⟩
       rw [sp.self, hg]; simp [he]
 
+theorem not_proper_empty (ds : List Bytes) (l : Bytes) : splitKey ([] : Bytes) ≠ some (keySteps ds l) := by
+  cases ds <;> simp [splitKey, splitKeyAux, keySteps_nil, keySteps_cons]
+
+theorem not_proper_dot (ds : List Bytes) (l : Bytes) : splitKey [DOT] ≠ some (keySteps ds l) := by
+  have : splitKey [DOT] = some [Step.lit (true, [])] := by decide
+  rw [this]
+  cases ds with
+  | nil => simp [keySteps_nil]
+  | cons d t => cases t <;> simp [keySteps_nil, keySteps_cons]
+
 theorem addTree_spec (o : Oracle) (t t' : Node (List Rule3)) (hwf : WF t)
     (host : Bytes) (ds : List Bytes) (l : Bytes) (hsplit : splitKey host = some (keySteps ds l))
     (p : PathRule) (m : MethodRule) (r : Route) (b : Bool) (hadd : addTree o t host p m r = some (t', b)) :
@@ -321,15 +331,13 @@ theorem addTree_spec (o : Oracle) (t t' : Node (List Rule3)) (hwf : WF t)
     rw [hg] at hadd
     simp only [] at hadd
     have sp := insertRec_spec host [(p, m, r)] ds l t hwf
-    by_cases hk : (host = [] || host = [DOT]) = true
-    · simp [Trie.insert, hk] at hadd
-    · simp only [Trie.insert, hk, Bool.false_eq_true, ↓reduceIte, hsplit] at hadd
-      split at hadd
-      · cases hadd
-      · simp only [Option.some.injEq, Prod.mk.injEq] at hadd
-        obtain ⟨rfl, _⟩ := hadd
-        refine ⟨sp.wf, ?_, sp.other⟩
-        rw [sp.self, hg]; rfl
+    have h1 : host ≠ [] := by intro e; subst e; exact not_proper_empty ds l hsplit
+    have h2 : host ≠ [DOT] := by intro e; subst e; exact not_proper_dot ds l hsplit
+    simp only [Trie.insert, h1, h2, Bool.or_self, Bool.false_eq_true, ↓reduceIte, hsplit, decide_false,
+      Option.some.injEq, Prod.mk.injEq] at hadd
+    obtain ⟨rfl, _⟩ := hadd
+    refine ⟨sp.wf, ?_, sp.other⟩
+    rw [sp.self, hg]; rfl
   | some kv =>
     rw [hg] at hadd
     simp only [] at hadd
@@ -711,32 +719,13 @@ theorem tree_remove_inv (o : Oracle) (Hs : List Bytes)
     rw [hother ds' l' hne]
     exact h.foreign ds' l' hall
 
-theorem not_proper_empty (ds : List Bytes) (l : Bytes) : splitKey ([] : Bytes) ≠ some (keySteps ds l) := by
-  cases ds <;> simp [splitKey, splitKeyAux, keySteps_nil, keySteps_cons]
-
-theorem not_proper_dot (ds : List Bytes) (l : Bytes) : splitKey [DOT] ≠ some (keySteps ds l) := by
-  have : splitKey [DOT] = some [Step.lit (true, [])] := by decide
-  rw [this]
-  cases ds with
-  | nil => simp [keySteps_nil]
-  | cons d t => cases t <;> simp [keySteps_nil, keySteps_cons]
-
 theorem addTree_total (o : Oracle) (t : Node (List Rule3)) (hwf : WF t)
     (host : Bytes) (ds : List Bytes) (l : Bytes) (hsplit : splitKey host = some (keySteps ds l))
     (p : PathRule) (m : MethodRule) (r : Route) : ∃ x, addTree o t host p m r = some x := by
-  simp only [addTree, domainLookupMut, hsplit]
-  cases hg : lookupMut o.seg false t (keySteps ds l) with
+  simp only [addTree]
+  cases domainLookupMut o.seg t host false with
   | some kv => simp only []; split <;> exact ⟨_, rfl⟩
-  | none =>
-    simp only []
-    have h1 : host ≠ [] := by intro e; subst e; exact not_proper_empty ds l hsplit
-    have h2 : host ≠ [DOT] := by intro e; subst e; exact not_proper_dot ds l hsplit
-    have sp := insertRec_spec host [(p, m, r)] ds l t hwf
-    have hne : (Trie.insert t host [(p, m, r)]).1 ≠ InsertResult.failed := by
-      simp only [Trie.insert, h1, h2, Bool.or_self, Bool.false_eq_true, ↓reduceIte, hsplit, decide_false]
-      rw [sp.code]; split <;> simp
-    simp only [hne, ↓reduceIte]
-    exact ⟨_, rfl⟩
+  | none => exact ⟨_, rfl⟩
 
 theorem mem_spec_add {S : Spec.State} {fe x : Spec.Fe} (h : x ∈ Spec.add S fe) : x ∈ S ∨ x = fe := by
   simp only [Spec.add] at h
